@@ -18,9 +18,11 @@ def build(inp):
     procs = {}
     for i, alive in enumerate(inp['workers']):
         pid = 1000 + i
+        gone = (alive == 'gone')                # already collected: psutil says NoSuchProcess -> UNEXISTING
+        alive = (alive is True)
         p = FakeProcess(k, pid, dies_at=None if alive else 0.0, delay_after_stop=0.05)
         p.started = i
-        p.status = 0 if alive else 1          # RUNNING / DEAD_OR_ZOMBIE as circus.process reports it
+        p.status = 0 if alive else (2 if gone else 1)     # RUNNING / DEAD_OR_ZOMBIE / UNEXISTING as circus.process reports it
         p.age = lambda: 0
         procs[pid] = p
     w.processes = dict(procs)
@@ -66,7 +68,7 @@ class ManageProcesses(object):
     def enumerate(self):
         for np in (0, 1, 2, 3):
             for workers in ([], [True], [True, True], [True, False], [False, False], [True, True, True],
-                            [True, True, True, False]):
+                            [True, True, True, False], ['gone'], [True, 'gone'], [True, True, 'gone', False]):
                 for respawn in (True, False):
                     for status in ('active', 'stopped', 'stopping'):
                         yield {'numprocesses': np, 'workers': workers, 'respawn': respawn, 'status': status}
@@ -87,6 +89,7 @@ class ManageProcesses(object):
         signalled = set(s[0] for s in k.signals)
         obs['silently_dropped'] = [pid for pid in procs if pid not in w.processes and pid not in signalled and
                                    obs['events'].count('reap') == 0]
+        obs['listed_dead'] = [pid for pid, p in procs.items() if pid in w.processes and p.status in (1, 2)]
         obs['unlisted_alive'] = [pid for pid, p in procs.items() if pid not in w.processes and p.status == 0 and
                                  not any(s[0] == pid for s in k.signals)]
         return obs
@@ -96,7 +99,7 @@ class ManageProcesses(object):
         if 'raised' in obs:
             return set(['noescape'])
         np = inp['numprocesses']
-        all_alive = all(inp['workers'])
+        all_alive = all(x is True for x in inp['workers'])
         if inp['status'] == 'stopped':
             if obs['spawned'] or obs['signals'] or not obs['table_same']:
                 bad.add('post[0]')
@@ -108,7 +111,11 @@ class ManageProcesses(object):
             bad.add('post[deficit-filled]')
         if obs['spawned'] and obs['status'] != 'stopped' and obs['count'] != np:
             bad.add('post[no-overshoot]')
+        if obs.get('listed_dead'):
+            bad.add('post[found-dead-are-unlisted]')
+            bad.add('inv-pres[13]:loop0')
         if obs['unlisted_alive']:
+            bad.add('inv-pres[1]:loop0')
             bad.add('inv-pres[1]')        # DROPDEAD: a live worker was unlisted without being terminated
         if obs.get('silently_dropped') and obs['status'] != 'stopped':
             bad.add('post[dead-removed-are-reaped]')
